@@ -210,8 +210,8 @@ func genHistory(r *rand.Rand, maxSide, maxLen int, alphaOnly bool) animHist {
 		var in image.Image = cur
 		want := cur
 		switch r.Intn(10) {
-		case 0: // frame smaller than the canvas: sits at (0,0), rest transparent
-			if h.CW > 1 && h.CH > 1 && i == 0 {
+		case 0: // frame smaller than the canvas (anywhere in the history, footprints vary): sits at (0,0), rest transparent
+			if h.CW > 1 && h.CH > 1 {
 				sw, sh := 1+r.Intn(h.CW), 1+r.Intn(h.CH)
 				small := image.NewNRGBA(image.Rect(0, 0, sw, sh))
 				full := image.NewNRGBA(cur.Rect)
